@@ -38,7 +38,7 @@ from surface import classes, comments, drv, gen, gen_sys, judge, lex, mutate, tr
 TIERS = {
     "smoke": dict(n_random=300, sys_every=8, seed_comment=1, seed_dense=False, seed_mut=1, gen_comment_every=10, gen_mut_every=10, max_min=2000),
     "quick": dict(n_random=3000, sys_every=1, seed_comment=2, seed_dense=True, seed_mut=2, gen_comment_every=5, gen_mut_every=5, max_min=12000),
-    "thorough": dict(n_random=90000, sys_every=1, seed_comment=25, seed_dense=True, seed_mut=25, gen_comment_every=1, gen_mut_every=1, max_min=120000),
+    "thorough": dict(n_random=70000, sys_every=1, seed_comment=20, seed_dense=True, seed_mut=15, gen_comment_every=1, gen_mut_every=1, gen_mut_n=1, max_min=120000),
 }
 WRAPS = [
     ("expr", "fn snippet__() {\n%s\n}\n"),
@@ -113,7 +113,7 @@ class Run:
                         self.tag_ok[t] = self.tag_ok.get(t, 0) + 1
                 if len(self.samples) < 8 and self.accepted % 977 == 1:
                     self.samples.append({"origin": origin, "source": src[:300], "comments": r.get("comments"), "ast_lines": r.get("defs_lines")})
-                if clean:
+                if clean and "///" not in src:
                     continue
                 fails, norm = judge.judge(r.data(), src)
                 for k, v in norm.items():
@@ -133,6 +133,12 @@ def harvest_seeds(run):
     for name, src in raws:
         seeds.append((src, "harvest:" + name, None))
     return seeds
+
+
+def _progress(msg, t0):
+    if os.environ.get("C13_PROGRESS"):
+        sys.stderr.write(f"[c13 {time.time() - t0:7.1f}s] {msg}\n")
+        sys.stderr.flush()
 
 
 def run(tier="quick", seed=0):
@@ -160,6 +166,7 @@ def run(tier="quick", seed=0):
     R.counters["shipped_files"] = R.counters.get("accepted:shipped", 0)
     R.counters["harvested_snippets"] = R.counters.get("accepted:harvest", 0)
     t1 = time.time()
+    _progress(f"seeds done: {R.accepted} accepted", t0)
 
     # ---- 2. generated modules
     sys_mods = gen_sys.systematic()[:: cfg["sys_every"]]
@@ -175,6 +182,7 @@ def run(tier="quick", seed=0):
     R.counters["generated_random_rejected"] = R.counters.get("rejected:gen", 0)
     R.counters["generated_systematic_rejected"] = R.counters.get("rejected:sys", 0)
     t2 = time.time()
+    _progress(f"generated done: {R.accepted} accepted", t0)
 
     # ---- 3. comment insertion
     variants = []
@@ -200,6 +208,7 @@ def run(tier="quick", seed=0):
     R.evaluate(variants)
     R.counters["comment_variants"] = R.counters.get("accepted:comment", 0)
     t3 = time.time()
+    _progress(f"comment variants done: {R.accepted} accepted", t0)
 
     # ---- 4. mutation / layout
     muts = []
@@ -213,7 +222,7 @@ def run(tier="quick", seed=0):
         if j % cfg["gen_mut_every"]:
             continue
         rng = R.rng()
-        for text, name in mutate.mutants(src, rng, 2):
+        for text, name in mutate.mutants(src, rng, cfg.get("gen_mut_n", 2)):
             muts.append((text, ("layout:" if name.startswith("layout") else "mutant:") + name + "<" + origin, None))
         if j % (cfg["gen_mut_every"] * 3) == 0:
             t = rng.pick(mutate.text_mutations(src, rng))
@@ -222,6 +231,7 @@ def run(tier="quick", seed=0):
     R.counters["layout_variants"] = R.counters.get("accepted:layout", 0)
     R.counters["mutation_variants"] = R.counters.get("accepted:mutant", 0)
     t4 = time.time()
+    _progress(f"mutants done: {R.accepted} accepted, {len(R.failing)} failing inputs to triage", t0)
 
     # ---- 5. triage: isolate, minimise, classify
     violations, vcounts = triage_failures(R)
@@ -284,7 +294,7 @@ def triage_failures(R):
             piece_res[i] = r
     by_input = {}
     for (idx, psrc), r in zip(pieces_req, piece_res):
-        if r.clean or r.rejected:
+        if (r.clean and "///" not in psrc) or r.rejected:
             continue
         f, _ = judge.judge(r.data(), psrc)
         for k, sig, det in f:
@@ -327,11 +337,11 @@ def triage_failures(R):
         if not m.verified:
             # the re-rendered text no longer shows the failure (layout dependent): keep the input as it is
             canon = triage.canonical(lex.tokens(k[0]))[:80] if len(k[0]) < 400 else "layout-dependent"
-            cls = classes.classify(kind, triage.canonical(lex.tokens(k[0]))) if len(k[0]) < 400 else "layout-dependent:unminimised"
+            cls = classes.classify(kind, triage.canonical(lex.tokens(k[0])), sig) if len(k[0]) < 400 else "layout-dependent:unminimised"
             minimal = k[0]
         else:
             canon = triage.canonical(m.toks)
-            cls = classes.classify(kind, canon)
+            cls = classes.classify(kind, canon, sig)
             minimal = m.src
         mr = drv.fmt_many([minimal], trees=False, keep_text=True)[0]
         key = f"C13|{kind}|{cls}" if kind != "crash" else f"C13|crash|{sig[1][:60]}|{cls}"
